@@ -126,4 +126,16 @@ PROPERTIES = {
             part("C12.fetch", target=("test", "network"), shards={"quick": 4, "thorough": 8}, floor=500),
         ],
     },
+    "C02": {
+        "level": "fault_enumeration",
+        "level_text": "enumeration of every structural certificate-mutation class x scheme x cache size x n=1..13 against the real Verify* functions, judged by a ground-truth oracle built "
+                      "from a log of real signing operations (never by security/cert); completeness checked for honestly assembled certificates at every replica",
+        "level_note": "assumes cryptographic hardness (only structural forgeries); bootstrap convention for signature-free certificates; a panic during verification is a C10 event, not a verdict",
+        "technique": "fault enumeration over certificate mutations with a sign-log ground-truth oracle",
+        "rule": "C02: certificate forgery campaign",
+        "anchors": ["security/cert/auth.go", "security/crypto/", "security/cert/cache.go"],
+        "parts": [
+            part("C02.certs", shards={"quick": 16, "thorough": 16}, floor=1000),
+        ],
+    },
 }
